@@ -126,6 +126,10 @@ func builtinGlobalParseInt(call FunctionCall) Value {
 		return NaNValue()
 	}
 	if negative {
+		if value == 0 {
+			// sign x number (ES5 15.1.2.2 step 16) is -0
+			return float64Value(math.Copysign(0, -1))
+		}
 		value *= -1
 	}
 
